@@ -171,6 +171,10 @@ def _attr_build(post, attr: str):
     if isinstance(v, ast.Name):
         bs = astq.list_builds(post.node, v.id)
         return bs[0] if len(bs) == 1 else None
+    if isinstance(v, ast.List) and not v.elts:
+        # self.<attr> = [] filled in place by self.<attr>.append(...)
+        bs = astq.list_builds(post.node, f"self.{attr}")
+        return bs[0] if len(bs) == 1 else None
     return None
 
 
@@ -192,7 +196,7 @@ def check_use(prog: Program, res: Result, rule: str = "C17-use") -> None:
     for fi, n in writers:
         st = n._parent
         ok = isinstance(st, ast.Assign) and isinstance(st.value, ast.Call) and prog.resolve_call(fi, st.value) == f"{PG}:toposort_edges" \
-            and len(st.value.args) == 1 and norm(st.value.args[0]) == "self.edge_types"
+            and len(st.value.args) == 1 and astq.self_alias(fi.node, st.value.args[0]) == "self.edge_types"
         if not ok and isinstance(st, ast.Assign) and any(q in TRAVERSALS for _, q in prog.calls_in(fi)):
             # the ordering is computed in place (an absorbed helper) from self.edge_inds: same obligations as C17-topo
             before = len(res.findings)
